@@ -1,6 +1,7 @@
 package ledgersim
 
 import (
+	"time"
 	"bytes"
 	"encoding/hex"
 	"encoding/json"
@@ -30,6 +31,7 @@ type HStep struct {
 	IC     int     `json:"ic,omitempty"` // number of interchain counter entries in the block's meta
 	N      int     `json:"n,omitempty"`  // rollback: target selector
 	Tag    uint64  `json:"tag,omitempty"`
+	Reader bool    `json:"reader,omitempty"` // block: the index store is slow and an API reader looks at the chain while the block is being persisted
 }
 
 type mBlock struct {
@@ -107,6 +109,7 @@ func genHist(r *sim.Rand, tier string, prop string) *sim.Plan {
 			if r.Chance(0.1) {
 				s.NTx = 0
 			}
+			s.Reader = prop == "C09" && r.Chance(0.15)
 			if r.Chance(0.04) {
 				// a full block of a loaded node (the ordering service's default batch size is 200 transactions)
 				s.NTx = []int{129, 150, 200, 257, 300}[r.Intn(5)]
@@ -186,6 +189,12 @@ func applyHWrites(n *node, m *model, ws []LStep) {
 	}
 }
 
+// where the concurrent reader of commitBlock reports (set by the C09 history executor)
+var (
+	readerRes  *sim.Result
+	readerStep int
+)
+
 // commitBlock flushes and persists block height+1 on the full ledger.
 func commitBlock(n *node, s HStep) *mBlock {
 	n.sl.ClearChangerAndRefund()
@@ -203,7 +212,54 @@ func commitBlock(n *node, s HStep) *mBlock {
 		}
 		meta.Counter[fmt.Sprintf("chain%d", i)] = sl
 	}
-	n.lg.PersistBlockData(&ledger.BlockData{Block: blk, Receipts: rs, Accounts: accounts, InterchainMeta: meta})
+	data := &ledger.BlockData{Block: blk, Receipts: rs, Accounts: accounts, InterchainMeta: meta}
+	if s.Reader && readerRes != nil {
+		// slow index store with a concurrent reader: while the block's index batch waits at the store, whatever head the
+		// chain meta announces must be there - the block by number and by hash, the hash by number, and for the new head
+		// its transactions
+		n.chainKV.Stall()
+		done := make(chan struct{})
+		go func() { n.lg.PersistBlockData(data); close(done) }()
+		deadline := time.Now().Add(5 * time.Second)
+		for n.chainKV.StalledWriters() < 1 && time.Now().Before(deadline) {
+			select {
+			case <-done:
+				deadline = time.Now() // persisted without touching the index store
+			default:
+				time.Sleep(50 * time.Microsecond) // wall-clock poll of the ledger's own goroutines; never influences a verdict
+			}
+		}
+		if n.chainKV.StalledWriters() >= 1 {
+			readerRes.Count("fault_reader_while_block_is_persisted")
+			cm := n.lg.GetChainMeta()
+			if cm.Height > 0 {
+				b, err := n.lg.GetBlock(cm.Height, true)
+				switch {
+				case err != nil:
+					readerRes.Violate("C09", "head-announced-before-it-is-stored", readerStep, "get-block", "while block %d is being persisted the chain meta announces height %d (head %s) but GetBlock(%d) fails: %v", h, cm.Height, cm.BlockHash, cm.Height, err)
+				case b.BlockHash.String() != cm.BlockHash.String():
+					readerRes.Violate("C09", "head-announced-before-it-is-stored", readerStep, "hash", "while block %d is being persisted the chain meta announces head %s at height %d, the block stored there has hash %s", h, cm.BlockHash, cm.Height, b.BlockHash)
+				default:
+					if hh := n.lg.GetBlockHash(cm.Height); hh == nil || hh.String() != cm.BlockHash.String() {
+						readerRes.Violate("C09", "head-announced-before-it-is-stored", readerStep, "block-hash-index", "while block %d is being persisted the chain meta announces head %s at height %d, the hash index answers %v", h, cm.BlockHash, cm.Height, hh)
+					} else if _, err := n.lg.GetBlockByHash(cm.BlockHash, true); err != nil {
+						readerRes.Violate("C09", "head-announced-before-it-is-stored", readerStep, "by-hash", "while block %d is being persisted the chain meta announces head %s, lookup by that hash fails: %v", h, cm.BlockHash, err)
+					} else if cm.Height == h {
+						for _, tx := range txs {
+							if _, err := n.lg.GetTransactionMeta(tx.GetHash()); err != nil {
+								readerRes.Violate("C09", "head-announced-before-it-is-stored", readerStep, "tx-meta", "while block %d is being persisted the chain meta already announces it, but its transaction %s cannot be looked up: %v", h, tx.GetHash().String()[:10], err)
+								break
+							}
+						}
+					}
+				}
+			}
+		}
+		n.chainKV.Release()
+		<-done
+	} else {
+		n.lg.PersistBlockData(data)
+	}
 	n.height = h
 	n.prev = blk.BlockHash
 	return &mBlock{h: h, hash: blk.BlockHash, parent: blk.BlockHeader.ParentHash, root: root, txs: txs, receipts: rs, meta: meta, icCount: ic}
@@ -361,7 +417,12 @@ func execHist(prop string, p *sim.Plan, keep bool) *sim.Result {
 	var future []*mBlock  // blocks removed by the last rollback, in height order, for "replay"
 	doBlock := func(i int, s HStep) {
 		applyHWrites(n, m, s.Writes)
+		readerRes, readerStep = nil, i
+		if prop == "C09" {
+			readerRes = res
+		}
 		mb := commitBlock(n, s)
+		readerRes = nil
 		m.commit()
 		mb.writes = s.Writes
 		mb.tag, mb.ic = s.Tag, s.IC
